@@ -321,6 +321,7 @@ def run(tier):
     from harness import probes
     probes.dynamic_over_default_conversion(R)
     recursive_field_conversion_probe(R)
+    lazy_and_generic_probe(R)
     probes.conversion_extra_probe(R)
     T1 = "world * list conv * cty * cdata * cobs"
     bad, errs = core.run_coq_shards("C12", HEADER + "\n".join(worlds) + "\n", items,
@@ -441,6 +442,105 @@ def recursive_field_conversion_probe(R):
             R.violation(f"serialize(Node, v) = {got!r} differs from the serialization through g = {want!r}", info)
     except Exception as e:
         R.violation(f"{type(e).__name__} in the recursive field conversion probe: {e}", info)
+    finally:
+        pyrun.drop_module(mod)
+        apischema.cache.reset()
+
+
+GEN_SRC = '''
+from dataclasses import dataclass
+from typing import Dict, Generic, List, TypeVar
+from apischema import deserializer, serializer
+from apischema.conversions import Conversion
+
+T = TypeVar("T")
+
+class W1(Generic[T]):
+    def __init__(self, x): self.x = x
+    def __eq__(self, o): return type(o) is type(self) and o.x == self.x
+    def __repr__(self): return f"{type(self).__name__}({self.x!r})"
+class W2(W1[T]): pass
+class W3(W1[T]): pass
+class W4(W1[T]): pass
+
+@deserializer
+def mk1(x: T) -> W1[T]: return W1(x)
+@deserializer
+def mk2(x: List[T]) -> W2[T]: return W2(x)
+@deserializer
+def mk3(x: List[List[T]]) -> W3[T]: return W3(x)
+@deserializer
+def mk4(x: Dict[str, List[T]]) -> W4[T]: return W4(x)
+
+class A1:                      # four unrelated roots: a subclass must find the serializer of its own root
+    def __init__(self, n): self.n = n
+class B1(A1): pass
+class A2:
+    def __init__(self, n): self.n = n
+class B2(A2): pass
+class A3:
+    def __init__(self, n): self.n = n
+class B3(A3): pass
+class A4:
+    def __init__(self, n): self.n = n
+class B4(A4): pass
+
+def g(a) -> List[int]: return [a.n, 7]
+def g1(a: A1) -> List[int]: return g(a)
+serializer(g1)
+def g2(a: A2) -> List[int]: return g(a)
+serializer(Conversion(g2))
+def g3(a: A3) -> List[int]: return g(a)
+serializer(lazy=lambda: g3, source=A3)
+def g4(a: A4) -> List[int]: return g(a)
+serializer(lazy=lambda: Conversion(g4), source=A4)
+'''
+
+
+def lazy_and_generic_probe(R):
+    """a serializer is inherited by subclasses however it was registered (function, Conversion, lazy function, lazy Conversion);
+    a generic deserializer f: S[T] -> W[T] makes deserialize(W[X], d) = f(deserialize(S[X], d)), rejecting exactly what S[X]
+    rejects, wherever T stands in S"""
+    import apischema.cache
+    from typing import Dict, List
+    from apischema import deserialize, serialize, ValidationError
+    apischema.cache.reset()
+    mod = pyrun.exec_module(GEN_SRC)
+    info = dict(source=GEN_SRC)
+    try:
+        for style, (A, B) in dict(function=(mod.A1, mod.B1), conversion=(mod.A2, mod.B2), lazy_function=(mod.A3, mod.B3),
+                                  lazy_conversion=(mod.A4, mod.B4)).items():
+            for T, v in ((A, A(1)), (B, B(2)), (A, B(3)), (List[B], [B(4)])):
+                R.count("inherited_serializer:" + style)
+                want = serialize(List[List[int]], [mod.g(x) for x in v]) if isinstance(v, list) else serialize(List[int], mod.g(v))
+                try:
+                    got = serialize(T, v)
+                except Exception as e:   # noqa
+                    R.violation(f"serializer registered as {style}: serialize({T}, instance of {type(v).__name__}) raised "
+                                f"{type(e).__name__}: {e} (subclasses inherit a serializer)", info)
+                    continue
+                if got != want:
+                    R.violation(f"serializer registered as {style}: serialize({T}, ...) = {got!r} instead of {want!r}", info)
+        for W, S, mk in ((mod.W1, lambda X: X, mod.mk1), (mod.W2, lambda X: List[X], mod.mk2),
+                         (mod.W3, lambda X: List[List[X]], mod.mk3), (mod.W4, lambda X: Dict[str, List[X]], mod.mk4)):
+            for X in (int, str, List[int]):
+                for d in (1, "a", [1], ["a"], [[1]], [["a"]], [[1], ["a"]], [[[1]]], {"k": [1]}, {"k": ["a"]}, {"k": [[1]]}, {"k": 1}, None):
+                    R.count("generic_deserializer")
+                    try:
+                        want = ("ok", mk(deserialize(S(X), d)))
+                    except ValidationError as e:
+                        want = ("err", e.errors)
+                    try:
+                        got = ("ok", deserialize(W[X], d))
+                    except ValidationError as e:
+                        got = ("err", e.errors)
+                    except Exception as e:   # noqa
+                        got = ("raise", f"{type(e).__name__}: {e}")
+                    if got != want:
+                        R.violation(f"generic deserializer {mk.__name__}: deserialize({W.__name__}[{X}], {d!r}) gives {got!r} but "
+                                    f"f(deserialize(S, d)) gives {want!r}", dict(info, data=repr(d)))
+    except Exception as e:
+        R.violation(f"{type(e).__name__} in the lazy / generic conversion probe: {e}", info)
     finally:
         pyrun.drop_module(mod)
         apischema.cache.reset()
